@@ -14,6 +14,9 @@ CONSTANTS
   Hook = FALSE
   Steer = TRUE
   Emit = TRUE
+  Clamp = "min1"
+  ErrSet = {}
+  AEIgnore = "nil"
 INVARIANTS PrintStuck
 VIEW View
 CHECK_DEADLOCK FALSE
